@@ -181,11 +181,13 @@ def try_resume(image, kind, kw, workdir, continue_run=False):
             mon.rederived = not kw.get("save_log_q", False)  # the table was re-derived in float32 on resume
         errs = []
         try:
-            with mon.installed():
+            with mon.installed(), (runs.std_draw_cap() if kind == "std" else runs.ins_draw_cap()):
                 fs.run(plot=False, save=False)
             errs += mon.errs[:2]
             if not errs:
                 (runs.check_std_results if kind == "std" else runs.check_ins_results)(fs, model, errs)
+        except runs.DrawCap as e:
+            errs.append(("continuation-does-not-terminate", str(e)[:200]))
         except Exception as e:
             errs.append((f"continuation-raises-{type(e).__name__}", str(e)[:200]))
         res["cont"] = errs
